@@ -276,6 +276,31 @@ let run_x86form = function
      | _ -> "ERR need exactly one instruction")
   | _ -> "ERR bad x86form line"
 
+(* x86call|<one-instruction bytecode program text>|<template code>  ->  ok | bad <why> *)
+let parse_kins (l : Stdlib.String.t) : kins =
+  match List.filter (fun x -> x <> "") (split_on ' ' l) with
+  | ["push"; r] -> KPush (zs r) | ["pop"; r] -> KPop (zs r)
+  | ["subrsp"] -> KSubRsp | ["addrsp"] -> KAddRsp
+  | ["movrr"; d; s] -> KMovRR (zs d, zs s)
+  | ["load"; d; k] -> KLoad (zs d, zs k)
+  | ["movi"; d; c] -> KMovI (zs d, zs c)
+  | ["call"; t] -> KCall (zs t)
+  | ["test8"; r] -> KTest8 (zs r)
+  | ["cmp64"; r; c] -> KCmp64 (zs r, zs c)
+  | ["je"] -> KJe | ["jne"] -> KJne
+  | ["store"; k; r] -> KStore (zs k, zs r)
+  | _ -> failwith ("bad call-template instruction " ^ l)
+let run_x86call = function
+  | [bc; code] ->
+    let p = parse_bc (toks_of bc) in
+    (match p.bp_code, p.bp_live with
+     | [i], [live] ->
+       let ks = List.map parse_kins (List.filter (fun x -> String.trim x <> "") (split_on ';' code)) in
+       if call_ok i live ks then "ok"
+       else (match yrun ks ksym0 with None -> "bad symbolic-evaluation-rejected" | Some _ -> "bad mismatch")
+     | _ -> "ERR need exactly one instruction")
+  | _ -> "ERR bad x86call line"
+
 (* parse|w|cp,cp,cp,... *)
 let run_parse = function
   | [w; cps] ->
@@ -653,7 +678,7 @@ let run_bcmem = function
      | _ -> "notdone")
   | _ -> "ERR bad bcmem line"
 
-let handlers : (Stdlib.String.t * (Stdlib.String.t list -> Stdlib.String.t)) list ref = ref [ ("cell", run_cell); ("bf", run_bf); ("inplace", run_inplace); ("ir", run_ir); ("bc", run_bc); ("x86form", run_x86form); ("bcreach", run_bcreach); ("parse", run_parse); ("bfbig", run_bfbig); ("bcmem", run_bcmem); ("formsnf", run_formsnf); ("shapes", run_shapes); ("cli", run_cli); ("bcwf", run_bcwf); ("bfx", run_bfx); ("expr", run_expr); ("svec", run_svec); ("tape", run_tape); ("rawproto", run_rawproto); ("bfcycle", run_bfcycle); ("irbig", run_irbig) ]
+let handlers : (Stdlib.String.t * (Stdlib.String.t list -> Stdlib.String.t)) list ref = ref [ ("cell", run_cell); ("bf", run_bf); ("inplace", run_inplace); ("ir", run_ir); ("bc", run_bc); ("x86form", run_x86form); ("x86call", run_x86call); ("bcreach", run_bcreach); ("parse", run_parse); ("bfbig", run_bfbig); ("bcmem", run_bcmem); ("formsnf", run_formsnf); ("shapes", run_shapes); ("cli", run_cli); ("bcwf", run_bcwf); ("bfx", run_bfx); ("expr", run_expr); ("svec", run_svec); ("tape", run_tape); ("rawproto", run_rawproto); ("bfcycle", run_bfcycle); ("irbig", run_irbig) ]
 
 let () =
   (try
